@@ -39,13 +39,29 @@ Definition strip_char (c : N) (s : str) : str := rstrip_chars (N.eqb c) (lstrip_
 
 (* _normalize_title_quotes *)
 Definition normalize_title_quotes (t : str) : str :=
-  [dq] ++ str_replace [dq] [bsl; dq] (strip_char dq t) ++ [dq].
+  [dq] ++ str_replace [dq] [bsl; dq] t ++ [dq].
 
 Definition truthy (o : option str) : bool := match o with Some (_ :: _) => true | _ => false end.
 
-(* _link_destination: empty or containing whitespace -> <...> *)
+(* _link_destination: empty, containing whitespace or with unbalanced parentheses -> <...> *)
+Fixpoint parens_scan (d : str) (depth : Z) (ok : bool) : Z * bool :=
+  match d with
+  | [] => (depth, ok)
+  | c :: r =>
+      if N.eqb c 40 then parens_scan r (depth + 1)%Z ok
+      else if N.eqb c 41 then parens_scan r (depth - 1)%Z (ok && negb (Z.ltb (depth - 1) 0))
+      else parens_scan r depth ok
+  end.
+Definition parens_balanced (d : str) : bool :=
+  let '(depth, ok) := parens_scan d 0%Z true in Z.eqb depth 0 && ok.
 Definition link_destination (d : str) : str :=
-  if is_nil d || existsb is_space d then [60%N] ++ d ++ [62%N] else d.
+  if is_nil d || existsb is_space d || negb (parens_balanced d) then [60%N] ++ d ++ [62%N] else d.
+
+(* _autolink_text: the raw text children as written, else the parsed destination *)
+Definition autolink_text (c : list inl) (dest : str) : str :=
+  if forallb (fun e => match e with IRaw _ => true | _ => false end) c
+  then concat (map (fun e => match e with IRaw s => s | _ => [] end) c)
+  else dest.
 
 (* longest run of character c in s *)
 Fixpoint longest_run_aux (c : N) (s : str) (cur best : nat) : nat :=
@@ -150,8 +166,8 @@ Section Render.
             let '(t, c') := kids c cur in
             let tt := if truthy title then [sp] ++ normalize_title_quotes (match title with Some x => x | None => [] end) else [] in
             ([33; 91]%N ++ t ++ [93; 40]%N ++ link_destination dest ++ tt ++ [41%N], c')
-        | KAuto dest => ([60%N] ++ dest ++ [62%N], cur)
-        | KUrl dest => (dest, cur)
+        | KAuto dest => ([60%N] ++ autolink_text c dest ++ [62%N], cur)
+        | KUrl dest => (autolink_text c dest, cur)
         end
     end.
 
@@ -171,19 +187,35 @@ Section Render.
         :: join_soft_breaks (Some c) s'
     end.
 
+  (* a run of # at the end of the heading text, alone or after a space or tab, gets a backslash
+     (unless one is already there): re.search(r"(?:^|(?<=[ \t]))#+$") *)
+  Definition escape_closing_hashes (t : str) : str :=
+    let r := rev t in
+    let n := run_len 35 r in
+    let before := rev (skipn n r) in        (* the text before the final run of # *)
+    match n with
+    | O => t
+    | _ =>
+        let starts_ok := match rev before with
+                         | [] => true
+                         | c :: _ => N.eqb c 32 || N.eqb c 9
+                         end in
+        if starts_ok && negb (endswith before [bsl]) then before ++ [bsl] ++ repeat 35%N n else t
+    end.
+
   (* ---- leaves ---- *)
   Definition hashes (n : nat) : str := repeat 35%N n.
 
   Definition render_code (lang extra : str) (fc : N) (flen : nat) (content : str) (st : rst) : str * rst :=
     let st := set_skip false st in
-    let code := rstrip_nl content in
+    let code := match rev content with 10%N :: r => rev r | _ => content end in     (* removesuffix: only the final newline *)
     let extra_text := match extra with [] => [] | _ => [sp] ++ extra end in
     let lang_text := match lang with [] => [] | _ => lang ++ extra_text end in
     let fence := repeat fc (Nat.max flen (min_fence_length code fc)) in
     let info_sep := match lang_text with c :: _ => if N.eqb c fc then [sp] else [] | [] => [] end in
     let first := r_prefix st ++ fence ++ info_sep ++ lang_text in
     let empty_pref := rstrip (r_prefix2 st) in
-    let code_lines := match code with [] => [] | _ => split_on nlc code end in
+    let code_lines := match content with [] => [] | _ => split_on nlc code end in
     let body := map (fun l => match l with [] => empty_pref | _ => r_prefix2 st ++ l end) code_lines in
     let lines := first :: body ++ [r_prefix2 st ++ fence] in
     (join [nlc] lines ++ [nlc], set_suppress false (next_prefix st)).
@@ -228,7 +260,7 @@ Section Render.
         ret (w ++ [nlc], set_cur [] (next_prefix st))
     | LHeading _ level c =>
         let '(t0, _) := render_inls true c [] in
-        let t := join_soft_breaks None t0 in
+        let t := escape_closing_hashes (join_soft_breaks None t0) in
         let st := set_cur [] st in
         if endswith t [bsl] then
           ret (r_prefix st ++ hashes level ++ [sp] ++ t ++ [nlc], next_prefix st)
@@ -236,7 +268,7 @@ Section Render.
           ret (r_prefix st ++ hashes level ++ [sp] ++ t ++ [nlc; nlc],
                set_suppress true (set_skip true (next_prefix st)))
     | LCode lang extra fc flen content => ret (render_code lang extra fc flen content st)
-    | LThematic => ret (r_prefix st ++ [42; 32; 42; 32; 42; 10]%N, next_prefix st)
+    | LThematic => ret (r_prefix st ++ [42; 32; 42; 32; 42; 10]%N, set_suppress false (set_skip false (next_prefix st)))
     | LBlank =>
         if r_skip st then ret ([], set_skip false st)
         else
@@ -246,6 +278,7 @@ Section Render.
         let lt := dest ++ (if truthy title then [sp] ++ (match title with Some x => x | None => [] end) else []) in
         ret (r_prefix st ++ [91%N] ++ label ++ [93; 58; 32]%N ++ lt ++ [nlc], set_suppress true (next_prefix st))
     | LTable delims rows =>
+        let st := set_suppress false (set_skip false st) in
         match rows with
         | [] => throw ValueError          (* head, *body = element.children *)
         | head :: body =>
